@@ -2,7 +2,7 @@ CONSTANTS
   w1 = w1
   w2 = w2
   Wakers = {w1, w2}
-  Target <- TgtTT
+  Target <- TgtMT
   Tasks = {"t1"}
   QCap = 1
   Mode = "block_on"
@@ -10,7 +10,7 @@ CONSTANTS
   Eager = FALSE
   ArmInFlush = TRUE
   WakeAfterPush = TRUE
-  Overflow = FALSE
+  Overflow = TRUE
 SPECIFICATION FairSpec
 INVARIANTS PendingBound TypeOK NeverStuck
 PROPERTIES NoLostWake
